@@ -83,17 +83,21 @@ def c02cand (args res : List String) : Verdict :=
           | 'd' => match (findPeer s a).bind (·.pieceIndex) with | some y => modifyAt s.statuses y (fun _ => .have) | none => s.statuses
           | 'x' => match (findPeer s a).bind (·.pieceIndex) with | some y => modifyAt s.statuses y decr | none => s.statuses
           | _ => s.statuses
+        let haveIdx : Nat := (argS.toNat?).getD 0
         let piecesAtChoice : List Pieces := match ch with
           | 'b' => s.peers.map (fun p => if p.addr = a then bitsOfString argS else p.pieces)
+          | 'h' => s.peers.map (fun p => if p.addr = a then p.pieces.set haveIdx true else p.pieces)
           | _ => allPieces
-        let tgtAtChoice : Pieces := if ch = 'b' then bitsOfString argS else target
+        let tgtAtChoice : Pieces := if ch = 'b' then bitsOfString argS else if ch = 'h' then target.set haveIdx true else target
         let noneOk := admissible stAtChoice piecesAtChoice tgtAtChoice none
         let someElig : Option Nat := (List.range np).find? (fun j => decide (eligible stAtChoice piecesAtChoice tgtAtChoice j))
         let reply := snap.reply
         let replyIdx : Option Nat := if reply.startsWith "R" then (reply.drop 2).toString.toNat? else none
         let chosen : Option Nat := match replyIdx with
           | some i => some i
-          | none => if ch = 'b' then (if reply = "BI" then someElig else none) else if noneOk then none else someElig
+          | none => if ch = 'b' then (if reply = "BI" then someElig else none)
+                    else if ch = 'h' ∧ reply = "In" then someElig
+                    else if noneOk then none else someElig
         let listedNow : List Nat := if ch = 'T' then parseCands rest else []
         let ev : Option CEv := match ch with
           | 'T' => some (.trackerResp listedNow)
@@ -104,7 +108,7 @@ def c02cand (args res : List String) : Verdict :=
           | 'u' => some (.peer (.unchoke a chosen))
           | 'i' => some (.peer (.interested a))
           | 'n' => some (.peer (.notInterested a chosen))
-          | 'h' => argS.toNat?.map (fun i => .peer (.have a i))
+          | 'h' => argS.toNat?.map (fun i => .peer (.have a i chosen))
           | 'b' => some (.peer (.bitfield a (bitsOfString argS) chosen))
           | 'd' => some (.peer (.pieceDone a chosen))
           | 'x' => some (.peer (.pieceCancel a chosen))
